@@ -27,6 +27,7 @@ func init() { register("C15", runC15) }
 
 func runC15(c *Ctx) {
 	c15EcdsaAll(c)
+	c15EcdsaForgeAll(c) // c15_adv.go: freely chosen (r,s,v) under the recovered key
 	c15SchnorrAll(c)
 	c15BlsAll(c)
 	c15Vectors(c)
@@ -397,6 +398,39 @@ func c15Ecdsa[P curves.Point[P, B, S], B algebra.PrimeFieldElement[B], S algebra
 			c.Count("ecdsa.signed.high")
 		}
 		negS := ss.Neg()
+		// RecoverPublicKey on all four v (and on the malleable form)
+		recoverAll := func() {
+			// RecoverPublicKey: the true v gives the signing key; every v is compared with the model
+			for v := 0; v < 4; v++ {
+				sg, _ := ecdsa.NewSignature(rr, ss, vp(v))
+				rec := safely(func() string {
+					p, err := ecdsa.RecoverPublicKey(suite, sg, msg)
+					if err != nil {
+						return "none"
+					}
+					return pointStr(p.Value())
+				})
+				c.Emit(fmt.Sprintf("ecdsa.recover %s %s %s %s %d", cname, hexBytes(digest), scalarHex(rr), scalarHex(ss), v), rec)
+				if v == v0 && rec != pointStr(pkv) {
+					c.Violation(fmt.Sprintf("ecdsa RecoverPublicKey(true v=%d) = %s, signing key %s (%s %s)", v, rec, pointStr(pkv), cname, hname))
+				}
+				if v != v0 && rec == pointStr(pkv) {
+					c.Violation(fmt.Sprintf("ecdsa RecoverPublicKey(v=%d != true v=%d) returned the signing key (%s %s)", v, v0, cname, hname))
+				}
+			}
+			sgNeg, _ := ecdsa.NewSignature(rr, negS, vp(v0^1))
+			rec := safely(func() string {
+				p, err := ecdsa.RecoverPublicKey(suite, sgNeg, msg)
+				if err != nil {
+					return "none"
+				}
+				return pointStr(p.Value())
+			})
+			c.Emit(fmt.Sprintf("ecdsa.recover %s %s %s %s %d", cname, hexBytes(digest), scalarHex(rr), scalarHex(negS), v0^1), rec)
+			if rec != pointStr(pkv) {
+				c.Violation(fmt.Sprintf("ecdsa RecoverPublicKey on (r,n-s,v^1) = %s, signing key %s", rec, pointStr(pkv)))
+			}
+		}
 		// honest
 		try("honest", false, pkv, msg, rr, ss, vp(v0), "accept")
 		if level == 0 {
@@ -425,6 +459,7 @@ func c15Ecdsa[P curves.Point[P, B, S], B algebra.PrimeFieldElement[B], S algebra
 			}
 			sgN.Normalise()
 			try("normalised-strict", true, pkv, msg, sgN.R(), sgN.S(), sgN.V(), "accept")
+			recoverAll()
 			continue
 		}
 		if low {
@@ -504,35 +539,6 @@ func c15Ecdsa[P curves.Point[P, B, S], B algebra.PrimeFieldElement[B], S algebra
 			try("normalised-strict", true, pkv, msg, sg.R(), sg.S(), sg.V(), "accept")
 		}
 
-		// RecoverPublicKey: the true v gives the signing key; every v is compared with the model
-		for v := 0; v < 4; v++ {
-			sg, _ := ecdsa.NewSignature(rr, ss, vp(v))
-			rec := safely(func() string {
-				p, err := ecdsa.RecoverPublicKey(suite, sg, msg)
-				if err != nil {
-					return "none"
-				}
-				return pointStr(p.Value())
-			})
-			c.Emit(fmt.Sprintf("ecdsa.recover %s %s %s %s %d", cname, hexBytes(digest), scalarHex(rr), scalarHex(ss), v), rec)
-			if v == v0 && rec != pointStr(pkv) {
-				c.Violation(fmt.Sprintf("ecdsa RecoverPublicKey(true v=%d) = %s, signing key %s (%s %s)", v, rec, pointStr(pkv), cname, hname))
-			}
-			if v != v0 && rec == pointStr(pkv) {
-				c.Violation(fmt.Sprintf("ecdsa RecoverPublicKey(v=%d != true v=%d) returned the signing key (%s %s)", v, v0, cname, hname))
-			}
-		}
-		sgNeg, _ := ecdsa.NewSignature(rr, negS, vp(v0^1))
-		rec := safely(func() string {
-			p, err := ecdsa.RecoverPublicKey(suite, sgNeg, msg)
-			if err != nil {
-				return "none"
-			}
-			return pointStr(p.Value())
-		})
-		c.Emit(fmt.Sprintf("ecdsa.recover %s %s %s %s %d", cname, hexBytes(digest), scalarHex(rr), scalarHex(negS), v0^1), rec)
-		if rec != pointStr(pkv) {
-			c.Violation(fmt.Sprintf("ecdsa RecoverPublicKey on (r,n-s,v^1) = %s, signing key %s", rec, pointStr(pkv)))
-		}
+		recoverAll()
 	}
 }
